@@ -231,6 +231,24 @@ func TestExh_C07(t *testing.T) {
 			Fault{Kind: "wrongtype", Type: 3},
 			Fault{Kind: "garbage", Level: "ttrpc", StreamSel: "zero", Type: 2, Bytes: []byte{1, 2, 3}, DeclLen: 3})
 	}
+	// ... and with a runtime whose SyncFn swallows the callback's error: a joiner whose initial
+	// Synchronize failed over a connection that is still usable must not become a member either
+	swallowed := []Fault{
+		{Kind: "error", ErrText: "c07 joiner 20 refuses", ErrForm: "plain"},
+		{Kind: "undecodable", Level: "payload", Bytes: []byte{0x08}},
+		{Kind: "wrongtype", Type: 3},
+	}
+	if ev.Thorough() {
+		swallowed = append(swallowed, Fault{Kind: "error", ErrText: "c07 joiner 20 refuses", ErrForm: "status", ErrCode: 4},
+			Fault{Kind: "undecodable", Level: "frame", Bytes: []byte{0x0f}}, Fault{Kind: "hang"}, Fault{Kind: "cut", Dir: "p2r", K: 5})
+	}
+	for _, q := range reqs {
+		for _, ft := range swallowed {
+			run(C07Case{Req: q.req, Event: q.event, Follow: q.req, FollowEvent: q.event, SyncSwallow: true,
+				Plugins: []PluginSpec{{Idx: 10, Fault: Fault{Kind: "none"}}, {Idx: 30, Fault: Fault{Kind: "none"}}},
+				Joiner:  &JoinerSpec{Idx: 20, Idx2: 25, Phase: "synchronize", Fault: ft}})
+		}
+	}
 	for _, q := range reqs {
 		for _, phase := range []string{"synchronize", "configure"} {
 			for _, ft := range jfaults {
